@@ -23,7 +23,7 @@ RULE = ("templates for every ':SymPy: supported' entry (reflection guard: an ent
         "inconclusive) x every symbol/number mask of its argument slots x substitution points drawn from the angle pool "
         '(special angles included) and translations <= 1e3. distinct = (entry, call form, mask); non-trivial = at least one '
         'symbolic slot')
-ASSUMPTIONS = ['symbolic outputs are evaluated with sympy subs + evalf (15 digits) and compared to 1e-12 relative to max(1, |value|)',
+ASSUMPTIONS = ['symbolic outputs are evaluated with sympy subs + evalf (17 digits) and compared to 1e-12 relative to the largest magnitude in the numeric result (and 1)',
                'structural constant = entry of the numeric result that is exactly 0 or 1 at three generic argument points']
 MIN_EVALS = {'value': {'quick': 1200, 'thorough': 18000}, 'constants': {'quick': 1200, 'thorough': 18000},
              'accepts': {'quick': 1200, 'thorough': 18000}}
@@ -239,11 +239,16 @@ def run_tmpl(ctx, p):
         ctx.bad('value', dict(sig, kind='shape_or_type_differs'), '%s (%s): symbolic result %s, numeric result %s' % (tname, form, tag_s, tag_n))
         return
     worst, wi, werr = 0.0, -1, None
+    # scale of the whole result: polynomial entries may cancel (e.g. q**3), their error scales with the largest term
+    try:
+        big = max([1.0] + [abs(float(x)) for x in fn_] + [abs(float(v)) ** 3 for v in vals if tname == 'base.qpow'])
+    except Exception:
+        big = 1.0
     for i, (xs, xn) in enumerate(zip(fs, fn_)):
         try:
             v = evalf(xs, sub)
             dn = float(xn)
-            d = abs(v - dn) / max(1.0, abs(dn))
+            d = abs(v - dn) / big
         except Exception as e:
             d, werr = math.inf, e
         if not d <= worst:
